@@ -22,3 +22,5 @@ import TsVerif.C06.CursorProps
 #print axioms TsVerif.C06.gotoChild_preserves_inv
 #print axioms TsVerif.C06.gotoNextSibling_preserves_inv
 #print axioms TsVerif.C06.descendant_index_spec
+#print axioms TsVerif.C06.prevScan_spec
+#print axioms TsVerif.C06.cursor_prev_sibling_spec
